@@ -43,6 +43,15 @@ pub enum Op {
     BoxedCollectShort(usize),
     BoxedCollectLong,
     TryFromVecWrongLen,
+    /// conversions to `Box<GenericArray>` from a heap sequence of the wrong length (the rejected source is released):
+    /// 0 try_from_vec with N+1 items, 1 try_from_boxed_slice with N+1, 2 try_from_vec with N-1, 3 try_from_boxed_slice with N-1,
+    /// 4 `TryFrom<Box<[T]>>` for the unboxed array with N+1, 5 try_from_vec with N+1 items and spare capacity
+    BoxedFromWrongLen(u8),
+    /// serde: a sequence source without size hints that ends after c < N elements / holds N+1 elements / fails when asked for
+    /// element c <= N: the array's visitor releases the elements it has stored while *not* unwinding
+    SerdeShort(usize),
+    SerdeLong,
+    SerdeElemErr(usize),
     /// internals: builder / consumer dropped at position p
     Builder(usize),
     Intrusive(usize),
@@ -76,7 +85,46 @@ fn arm(ids: &[Option<u32>], e: usize) {
     }
 }
 
-fn exec_typed<T: Elem + Clone + Default, N: ArrayLength>(case: &Case, acc: &mut Acc) -> Result<(), String> {
+/// A sequence-only deserializer without size hints: `c` elements (u32 values), optionally failing at index `err_at`.
+mod serde_src {
+    use serde::de::{DeserializeSeed, Deserializer, IntoDeserializer, SeqAccess, Visitor};
+    pub type E = serde::de::value::Error;
+    pub struct SeqDe {
+        pub c: usize,
+        pub err_at: Option<usize>,
+        pub base: u32,
+    }
+    struct Seq {
+        d: SeqDe,
+        i: usize,
+    }
+    impl<'de> SeqAccess<'de> for Seq {
+        type Error = E;
+        fn next_element_seed<S: DeserializeSeed<'de>>(&mut self, seed: S) -> Result<Option<S::Value>, E> {
+            if self.d.err_at == Some(self.i) {
+                return Err(serde::de::Error::custom("scripted element error"));
+            }
+            if self.i >= self.d.c {
+                return Ok(None);
+            }
+            let v = self.d.base + self.i as u32;
+            self.i += 1;
+            seed.deserialize(IntoDeserializer::<E>::into_deserializer(v)).map(Some)
+        }
+    }
+    impl<'de> Deserializer<'de> for SeqDe {
+        type Error = E;
+        fn deserialize_any<V: Visitor<'de>>(self, visitor: V) -> Result<V::Value, E> {
+            visitor.visit_seq(Seq { d: self, i: 0 })
+        }
+        serde::forward_to_deserialize_any! {
+            bool i8 i16 i32 i64 i128 u8 u16 u32 u64 u128 f32 f64 char str string bytes byte_buf option unit unit_struct newtype_struct seq
+            tuple tuple_struct map struct enum identifier ignored_any
+        }
+    }
+}
+
+fn exec_typed<T: Elem + Clone + Default + for<'de> serde::Deserialize<'de>, N: ArrayLength>(case: &Case, acc: &mut Acc) -> Result<(), String> {
     registry::reset();
     let n = N::USIZE;
     let arr: GenericArray<T, N> = GenericArray::generate(|i| T::mk(100 + i as u32));
@@ -317,6 +365,62 @@ fn exec_typed<T: Elem + Clone + Default, N: ArrayLength>(case: &Case, acc: &mut 
                 Err(c) => expect_panic_payload_ok &= c.injected,
             }
         }
+        Op::BoxedFromWrongLen(form) => {
+            drop(arr);
+            let c = if form == 2 || form == 3 { if n == 0 { return Ok(()) } else { n - 1 } } else { n + 1 };
+            let mut items: Vec<T> = Vec::with_capacity(if form == 5 { c + 5 } else { c });
+            items.extend((0..c).map(|i| T::mk(500 + i as u32)));
+            let iids: Vec<Option<u32>> = items.iter().map(|x| x.ident()).collect();
+            if c > 0 {
+                arm(&iids, e % c);
+            }
+            let r = engine::catch(move || match form {
+                0 | 2 | 5 => GenericArray::<T, N>::try_from_vec(items).is_ok(),
+                1 | 3 => GenericArray::<T, N>::try_from_boxed_slice(items.into_boxed_slice()).is_ok(),
+                _ => GenericArray::<T, N>::try_from(items.into_boxed_slice()).is_ok(),
+            });
+            fired_in_op = registry::drop_panic_fired();
+            match r {
+                Ok(true) => return Err(format!("a heap sequence of {c} items was accepted for N = {n}")),
+                Ok(false) => {}
+                Err(c) => expect_panic_payload_ok &= c.injected,
+            }
+        }
+        Op::SerdeShort(_) | Op::SerdeLong | Op::SerdeElemErr(_) => {
+            drop(arr);
+            // (elements the source holds, index at which it fails instead of yielding)
+            let (c, err_at) = match case.op {
+                Op::SerdeShort(c) => {
+                    if n == 0 {
+                        return Ok(());
+                    }
+                    (c.min(n - 1), None)
+                }
+                Op::SerdeLong => (n + 1, None),
+                Op::SerdeElemErr(c) => (n + 1, Some(c.min(n))),
+                _ => unreachable!(),
+            };
+            // elements are created by `T::deserialize` while the visitor pulls them: identities are handed out in creation order
+            let probe = T::mk(0);
+            let has_id = probe.ident().is_some();
+            drop(probe);
+            let stored = err_at.unwrap_or(c).min(n);
+            let base = registry::created() as u32;
+            let iids: Vec<Option<u32>> = (0..stored).map(|j| if has_id { Some(base + j as u32) } else { None }).collect();
+            if stored > 0 {
+                arm(&iids, e % stored);
+            }
+            let r = engine::catch(move || {
+                let de = serde_src::SeqDe { c, err_at, base: 500 };
+                <GenericArray<T, N> as serde::Deserialize>::deserialize(de).is_ok()
+            });
+            fired_in_op = registry::drop_panic_fired();
+            match r {
+                Ok(true) => return Err(format!("a sequence source of {c} elements (error at {err_at:?}) was accepted for N = {n}")),
+                Ok(false) => {}
+                Err(c) => expect_panic_payload_ok &= c.injected,
+            }
+        }
         Op::Builder(p) | Op::Intrusive(p) => {
             drop(arr);
             let p = p.min(n);
@@ -527,6 +631,14 @@ fn whole_ops(n: usize) -> Vec<Op> {
     for c in 0..n {
         v.push(Op::CollectShort(c));
         v.push(Op::BoxedCollectShort(c));
+        v.push(Op::SerdeShort(c));
+    }
+    v.push(Op::SerdeLong);
+    for c in 0..=n {
+        v.push(Op::SerdeElemErr(c));
+    }
+    for form in 0..6 {
+        v.push(Op::BoxedFromWrongLen(form));
     }
     for p in 0..=n {
         v.push(Op::Builder(p));
@@ -568,7 +680,7 @@ fn exhaustive(nmax: usize) -> Vec<Case> {
             let span = match op {
                 Op::ZipDrop(_) => 2 * n,
                 Op::CollectLong | Op::BoxedCollectLong => n + 2,
-                Op::TryFromVecWrongLen => n + 1,
+                Op::TryFromVecWrongLen | Op::BoxedFromWrongLen(_) | Op::SerdeLong => n + 1,
                 Op::NestedDrop => 6,
                 _ => n,
             };
@@ -588,7 +700,7 @@ fn exhaustive(nmax: usize) -> Vec<Case> {
 
 fn random_strategy() -> impl Strategy<Value = Case> {
     let lens: &'static [usize] = &[9, 10, 11, 12, 16, 31, 32, 33, 64, 100, 255, 256, 1000, 1024];
-    (0..lens.len(), any::<bool>(), any::<u16>(), any::<u16>(), 0usize..44, any::<u16>(), any::<u16>()).prop_map(move |(li, zst, fs, bs, opk, a, es)| {
+    (0..lens.len(), any::<bool>(), any::<u16>(), any::<u16>(), 0usize..50, any::<u16>(), any::<u16>()).prop_map(move |(li, zst, fs, bs, opk, a, es)| {
         let n = lens[li];
         let front = (fs as usize * (n + 1)) >> 16;
         let back = (bs as usize * (n - front + 1)) >> 16;
@@ -632,6 +744,10 @@ fn random_strategy() -> impl Strategy<Value = Case> {
             37 => Op::ZipDrop(1),
             38 => Op::ZipDrop((es % 7) as u8),
             39 if es % 2 == 0 => Op::ZipMixedDrop((es % 4 / 2) as u8),
+            44 => Op::SerdeShort((a as usize * n.max(1)) >> 16),
+            45 => Op::SerdeLong,
+            46 => Op::SerdeElemErr((a as usize * (n + 1)) >> 16),
+            47 | 48 => Op::BoxedFromWrongLen((es % 6) as u8),
             _ => Op::TryFromVecWrongLen,
         };
         let (front, back) = if opk >= 23 && opk != 40 && opk != 41 { (0, 0) } else { (front, back) };
@@ -671,7 +787,7 @@ pub fn main() {
             level: "fault_enumeration",
             rule: "case = (operation, N, iterator position (front, back), argument, the single element e whose destructor panics once). \
                    Enumerated completely for N in 0..=nmax: iterator drop/nth(a)/nth_back(a)/count/last/fold/rfold/for-loop/clone-drop/clone_from (as destination, source in three positions) from every (front, back) with every a in 0..=len+2 and usize::MAX and every e in the live range; \
-                   element kinds: 24-byte, 96-byte and zero-sized drop-tracked; whole-value operations (array, Box, nested array drop; clone_from into an array / boxed array; zips of a plain array with a tracked one; too-short/too-long collect, stack and boxed; builder/consumer dropped at every position; map/zip/fold whose closure drops its argument - zip in owned x owned, owned x &, owned x &mut, & x owned and boxed forms) with every e. Larger N sampled with proptest. \
+                   element kinds: 24-byte, 96-byte and zero-sized drop-tracked; whole-value operations (array, Box, nested array drop; clone_from into an array / boxed array; zips of a plain array with a tracked one; too-short/too-long collect, stack and boxed; deserialisation (serde) from a hint-less sequence source that ends early, is too long, or fails at element c; conversions to Box<GenericArray> from a Vec / Box<[T]> of N-1 or N+1 items (try_from_vec, try_from_boxed_slice, TryFrom<Box<[T]>>, with spare capacity); builder/consumer dropped at every position; map/zip/fold whose closure drops its argument - zip in owned x owned, owned x &, owned x &mut, & x owned and boxed forms) with every e. Larger N sampled with proptest. \
                    After the panic is caught the caller keeps using the iterator (drains it from both ends), so a stale read is observed, not just a second drop. \
                    Oracle: per-element drop count <= 1, no observation after drop, no garbage drop; leaks are allowed and only counted. \
                    non-trivial = the chosen destructor actually ran and panicked inside the operation; distinct = distinct case tuples",
